@@ -5,7 +5,7 @@ complex of the TET family, with cell-vertex-order deviations, both values of sor
 oracle is computed from the raw cell list; the boundary-surface clauses use exact integer volumes.
 """
 from __future__ import annotations
-import itertools
+import itertools, math
 from mc.core import Report, h64
 from mc import families as F
 from mc.cache_explore import Ev as _Ev, explore, tup
@@ -24,6 +24,7 @@ BOUNDS = {"quick": "TET(4), TET(5) all labelled (27 complexes) x {sorted, positi
 BATCH = 6
 DUP = [False]
 CFG = [None]
+UNIT = [1.0]    # unit of length of the built mesh (a power of two: the scaled coordinates are exact); the oracle keeps the integers
 CFG_CLASS = {"F": "faces_given:face_completion_off", "Fa": "faces_given_ascending_winding:face_completion_off", "E": "edges_given:edge_completion_off", "-": "no_edges:edge_completion_off",
              "FE": "faces_and_edges_given:completion_off", "F-": "faces_given_no_edges:completion_off"}
 DEPTH = [2]     # bound on the number of state-changing events per history (set per tier in run_task)
@@ -107,6 +108,12 @@ def tasks(tier):
     # sides, '-' = switch off and nothing supplied (a mesh without edges: every accessor is still asked, the edge
     # domains are empty).  The switches stay off for the whole exploration (construction and queries).
     dcfg = {"quick": 1, "thorough": 2}[tier]
+    dcfg = {"quick": 1, "thorough": 2}[tier]
+    # unit of length: the same complexes with every coordinate multiplied by 2^-17 (cells of volume ~1e-13: any absolute
+    # threshold in an orientation or degeneracy test shows), thorough also 2^17
+    for u in ((-17,) if tier == "quick" else (-17, 17)):
+        for i in range(0, len(base), 4):
+            out.append({"sort": True, "unit": u, "depth": dcfg, "depth_base": dcfg, "complexes": base[i:i + 4]})
     for cfg in CONFIGS:
         for i in range(0, len(base), 4):
             out.append({"sort": True, "cfg": cfg, "depth": dcfg, "depth_base": dcfg, "complexes": base[i:i + 4]})
@@ -407,7 +414,7 @@ def _events(sort):
             if tuple(sorted(b2mv[v] for v in e)) != o.E[got["b2m_edge"][i]]:
                 return ("edge_map_wrong_edge", None)
         for i, p in enumerate(got["pts"]):
-            if [float(x) for x in o.pts[b2mv[i]]] != p:
+            if [float(x) * UNIT[0] for x in o.pts[b2mv[i]]] != p:
                 return ("vertex_map_wrong_position", None)
         lab = surface_checks(o, [[b2mv[v] for v in f] for f in got["faces"]], o.embedded is not False)
         return (lab, None) if lab else None
@@ -427,7 +434,7 @@ def _events(sort):
         if sorted(got["b2m"].values()) != o.border_vertices or sorted(got["b2m"]) != list(range(got["nv"])):
             return ("vertex_map_domain", o.border_vertices)
         for i, p in enumerate(got["pts"]):
-            if [float(x) for x in o.pts[got["b2m"][i]]] != p:
+            if [float(x) * UNIT[0] for x in o.pts[got["b2m"][i]]] != p:
                 return ("vertex_map_wrong_position", None)
         positive = all(F.tet_volume6(*(o.pts[v] for v in c)) > 0 for c in o.C)
         lab = surface_checks(o, [[got["b2m"][v] for v in f] for f in got["faces"]], positive and o.embedded is not False)
@@ -467,6 +474,17 @@ def _explore(M, name, n, pts, cells, sort, rep, events, build, big=False):
     if any(f is None for row in o.c_faces for f in row) or len(o.Fl) != len(o.fid):
         rep.count("premise_failed"); rep.notes.append(name + ": faces of the built mesh are not the triangles of the cells")
         return
+    # the sides of the cells are the edges of the mesh whenever an edge list is promised (completed from the faces or
+    # supplied by the caller); '-' configurations promise none
+    rep.evaluations += 1
+    if CFG[0] not in ("-", "F-"):
+        sides = {tuple(sorted((c[i], c[j]))) for c in cells for i in range(4) for j in range(i + 1, 4)}
+        have = {tuple(sorted(int(v) for v in e)) for e in m0.edges}
+        if sides != have:
+            rep.violation("C03.edge_list", "VolumeMesh.edges", "mismatch:edges_are_not_the_sides_of_the_cells",
+                          "tet" + (":" + CFG_CLASS[CFG[0]] if CFG[0] else ""),
+                          {"mesh": name, "cells": [list(c) for c in cells], "missing": sorted(sides - have)[:6], "extra": sorted(have - sides)[:6]})
+            return
     interior_edge = len(o.border_edges) < len(o.E)
     interior_vertex = len(o.border_vertices) < n
     positive = all(F.tet_volume6(*(pts[v] for v in c)) > 0 for c in o.C)
@@ -474,7 +492,7 @@ def _explore(M, name, n, pts, cells, sort, rep, events, build, big=False):
     def icls(warm):
         return (f"tet:cells{'1' if len(o.C) == 1 else '2+'}:{'positive' if positive else 'mixed-orientation'}:"
                 f"sort={sort}:{'warm' if warm else 'fresh'}" + (":duplicate_attribute_flag" if DUP[0] else "")
-                + (":" + CFG_CLASS[CFG[0]] if CFG[0] else ""))
+                + (":" + CFG_CLASS[CFG[0]] if CFG[0] else "") + (":unit=2^%d" % round(math.log2(UNIT[0])) if UNIT[0] != 1.0 else ""))
     resets = {"connectivity.clear": lambda m: m.connectivity.clear()}
     seen = explore("C03", build, o, events, resets, _state_key, _content_key, rep, icls,
                    {"mesh": name, "n": n, "cells": [list(c) for c in cells] if not big else "see mc.families.cube_grid_tets(4)", "sort": sort},
@@ -505,6 +523,7 @@ def run_task(task, rep: Report):
     old_cf, old_ce = M.config.complete_faces_from_cells, M.config.complete_edges_from_faces
     cfg = task.get("cfg")
     CFG[0] = cfg
+    UNIT[0] = 2.0 ** task.get("unit", 0)
     try:
         if cfg is not None:
             M.config.complete_faces_from_cells = "F" not in cfg
@@ -540,9 +559,15 @@ def run_task(task, rep: Report):
                     _explore(M, f"{name}:{tag}:cfg={cfg}", n, pts, v, sort, rep, events, lambda v=v: _cfg_build(M, pts, v, cfg))
                     rep.flag("cfg:" + cfg); rep.count("config_deviation_meshes")
                     continue
+                if UNIT[0] != 1.0:
+                    spts = [tuple(float(x) * UNIT[0] for x in p) for p in pts]
+                    _explore(M, f"{name}:{tag}:unit=2^{task['unit']}", n, pts, v, sort, rep, events, lambda v=v: F.build_volume(spts, v, tuple))
+                    rep.flag("unit:%d" % task["unit"])
+                    continue
                 _explore(M, f"{name}:{tag}", n, pts, v, sort, rep, events, lambda v=v: F.build_volume(pts, v, tuple))
     finally:
         CFG[0] = None
+        UNIT[0] = 1.0
         M.config.complete_faces_from_cells, M.config.complete_edges_from_faces = old_cf, old_ce
         M.config.sort_neighborhoods = old
         M.config.display_duplicate_attribute_warning = old_dup
@@ -556,6 +581,8 @@ def finish(tier, rep: Report):
     for kind in ("other_face_side", "common_face", "is_face_on_border", "is_edge_on_border", "face_to_cells"):
         if len(rep.outcomes.get(kind, ())) < 2:
             fails.append(f"accessor {kind} produced a single distinct outcome")
+    if "unit:-17" not in rep.flags:
+        fails.append("unit-of-length deviation not exercised")
     for cfg in CONFIGS:
         if "cfg:" + cfg not in rep.flags:
             fails.append("configuration deviation not exercised: " + cfg)
